@@ -5,7 +5,8 @@ package bip32path
 // Machine-checked contracts for this package (read by /verif/govc; comment-only, compiled only
 // with -tags verif). See /verif/DESIGN.md.
 //
-// Component level only: the digits of a path component are read in base 10 and must be below 2^31.
+// Component level: the digits of a path component are read in base 10 and must be below 2^31; the printed
+// form uses only the characters of the grammar.
 // The framing of a path string (strings.Split, the regular expression, fmt's %d) is outside the
 // supported subset and is not under contract.
 
@@ -16,3 +17,13 @@ package bip32path
 //@   ensures isnil(err) == (strconv.decok(s) && strconv.decval(s) < 2147483648)
 //@   ensures implies(isnil(err), mathint(r) == strconv.decval(s))
 //@   ensures implies(!isnil(err), r == 0)
+
+// Path.String, partially: the output starts with 'm' and consists only of the characters of the path
+// grammar (m, /, ', decimal digits); an empty path prints as "m". The exact digits are fmt's business.
+//@ spec pathchar(c byte) bool = c == 'm' || c == '/' || c == '\'' || ('0' <= c && c <= '9')
+//@ func (p Path) String() (r string)
+//@   panics  never
+//@   loop 1 invariant len(builder) >= 1 && builder[0] == 'm' && forall(k, 0, len(builder), pathchar(builder[k]))
+//@   loop 1 invariant 0 <= _i1 && _i1 <= len(p) && (len(builder) == 1 || len(p) >= 1)
+//@   ensures len(r) >= 1 && r[0] == 'm' && forall(k, 0, len(r), pathchar(r[k]))
+//@   ensures implies(len(p) == 0, len(r) == 1)
